@@ -127,7 +127,8 @@ TABLE = [
     ("gate", 2, 3), ("gate", 1, 1), ("coin", 4, 2),
     ("t:rcm", 1, 2), ("t:rcm", 2, 12), ("t:rcm", 3, 8), ("t:rpm", 2, 3), ("t:rpair", 2, 2), ("t:rcliff", 3, 2),
     ("t:rcs", 2, 2), ("t:rpauli", 2, 1), ("t:rps", 2, 1), ("t:rpm", 3, 1), ("t:rcs", 3, 1), ("t:rpair", 3, 1),
-    ("t:rcm", 4, 1), ("rps", 2, 1),
+    ("t:rcm", 4, 2), ("rps", 2, 3), ("rps", 1, 1), ("t:rps", 2, 1), ("rpm", 6, 1), ("rpauli", 6, 1), ("rcs", 5, 1),
+    ("rcs", 6, 1), ("rps", 5, 1), ("t:rcm", 5, 1), ("rcm", 4, 2), ("rpm", 4, 1),
 ]
 
 
@@ -304,8 +305,11 @@ class RunClass(Run):
             if s in ("rpm", "t:rpm", "rpauli", "t:rpauli"):
                 if n <= 3:
                     self.bin("class", cls)
-                    if ps is not None and n <= 2:
+                    if ps is not None and n <= 3:
                         self.bin("sign", sgn)
+            if ps is not None and n >= 4:
+                for i, k in enumerate(sgn):
+                    self.bin("signbit%d" % i, k)      # every sign bit individually fair
             return (cls, sgn)
         if kind == "state":
             gs, ps, r = raw[1], raw[2], raw[3]
@@ -320,6 +324,8 @@ class RunClass(Run):
                 self.bad("state_rank", want=want_r or 0, got=a.rank)
             if s in ("rcs", "t:rcs") and n == 2 and a.rank == 0:
                 self.bin("state", a.key())
+            if s in ("rps", "t:rps") and n <= 2 and a.rank == 0:
+                self.bin("state", a.key())        # uniform over the 6^n product stabilizer states
             if s == "rbs":
                 rows = [rm.from_gp(gs[i], int(ps[i]) % 4) for i in range(2 * n)]
                 if any(rows[i] [0] != tuple(3 if j == i else 0 for j in range(n)) for i in range(n)):
@@ -363,6 +369,7 @@ EXPECTED_BINS = {
     ("row4", 3, "cliff"): 63, ("row5", 3, "cliff"): 63,
     ("class", 1, "pauli"): 6, ("class", 2, "pauli"): 36, ("class", 3, "pauli"): 216, ("sign", 1, "any"): 4,
     ("state", 2, "cliffstate"): 60, ("state", 2, "productstate"): 36,
+    ("state", 1, "pstate"): 6, ("state", 2, "pstate"): 36,
     ("bits", 3, "rbs"): 8, ("coins", 4, "coin"): 16, ("pair_joint", 2, "pair"): 120, ("pair_first", 2, "pair"): 15,
 }
 
@@ -377,6 +384,8 @@ def _family(sampler):
         return "cliffstate"
     if b == "onsite":
         return "productstate"
+    if b == "rps":
+        return "pstate"
     if b == "rbs":
         return "rbs"
     if b == "coin":
@@ -417,6 +426,8 @@ def batch_oracles(merged, mode):
             continue
         fam = _family(sampler)
         bins = EXPECTED_BINS.get((stat, n, fam)) or EXPECTED_BINS.get((stat, n, "any"))
+        if stat.startswith("signbit"):
+            bins = 2
         if bins is None:
             continue
         if len(cnt) > bins:
